@@ -3,9 +3,12 @@
 (* define.  For an element named here every undefined value belongs to one of the standard's *)
 (* catch-all classes (reserved / manufacturer specific); the class is named after the        *)
 (* library member that represents it.  Elements that are total (every value defined) or      *)
-(* for which the standard gives no fallback (the library raises) need no entry, and the      *)
-(* feature set id is left out on purpose: the library folds unlisted manufacturer ids onto   *)
-(* the first listed manufacturer, which the repository's tests assert (see DESIGN, C03).     *)
+(* for which the standard gives no fallback (the library raises) need no entry.  Feature set *)
+(* id (9.3.13): 0x01..0x03 reserved for future standardisation, 0x80..0xFF reserved for      *)
+(* future MFID allocation; 0x04..0x7F are manufacturer ids and the standard has NO reserved   *)
+(* member for one the registry does not list - the class below names none, so only an error  *)
+(* satisfies the rule there (the library folds them onto the first listed manufacturer,      *)
+(* which the repository's own test asserts: recorded as a known finding, see DESIGN, C03).   *)
 (* Sources: TS 102 361-1 9.3.6 (data type), 9.3.17 (DPF), 9.3.18 (SAP), 9.3.38 (DD format),  *)
 (* 9.3.41? (UDT format); TS 102 361-2 B.3 / 361-4 B.2 (SLCO), 361-2 7.2.? (activity id);      *)
 (* TS 102 361-3 7.2.4 (IP address id, UDP port id); TS 102 361-4 7.2.20 (announcement type).  *)
@@ -13,6 +16,8 @@ EXTENDS Naturals, Sequences
 
 Cls(lo, hi, m) == [lo |-> lo, hi |-> hi, m |-> m]
 ElementClasses == [
+  FeatureSetIDs       |-> <<Cls(1, 3, "ReservedForFutureStandardization"), Cls(4, 127, "(no reserved member: error)"),
+                            Cls(128, 255, "ReservedForFutureMFID")>>,
   DataPacketFormats   |-> <<Cls(0, 15, "Reserved")>>,
   DataTypes           |-> <<Cls(12, 15, "Reserved")>>,
   DefinedDataFormats  |-> <<Cls(0, 63, "Reserved")>>,
